@@ -25,7 +25,8 @@ def units(tier, seed):
     out = []
     for s in modems.catalogue(tier):
         cost = 1 + (s.get("order", 4) / 32 if s["scheme"] in ("qam", "pam", "psk") else 0)
-        out.append({"unit": f"{modems.cfg(s)}", "spec": s, "cost": cost})
+        # all option variants of one scheme and order run one after the other in one process
+        out.append({"unit": f"{modems.cfg(s)}", "spec": s, "cost": cost, "group": f"{s['scheme']}:{s.get('order', 0)}"})
     return out
 
 
